@@ -104,7 +104,7 @@ PROPS = {
         runs={"quick": [["lsh-C05", "--scenarios", "20", "--ops", "160"]], "thorough": [["lsh-C05", "--scenarios", "120", "--ops", "600"]]},
         trusted=SEARCH_TRUST + ["distanceToHyperplane is a deterministic function of (vector, hyperplane): the side oracle of the model is a function"],
         statement="forest ids = live ids invariant, all histories, all oracles",
-        partial="proved: index_after_any_history / index_history_from — for EVERY sequence of AddDocument (new or overwrite), UpdateDocument and removal (down to empty and up again), from the empty index or from any state satisfying the invariant (the rebuilt index after reopen: rebuild), each tree lists exactly the live ids, each once, routed by the stored vectors; the call order this models is regenerated from the source (index_glue). proved: TreeInv preserved by every operation; covering_radius_complete (every listed document within the radius and passing the filter is returned, for every forest, under the geometric hypothesis FarSound or hyperplane-within-radius); the geometric hypothesis itself for the Euclidean metric over the reals (C05.far_side_geometry, Mathlib). Gap: binary64 rounding of the geometry (the harness enlarges the covering radius by 1e-7 relative); the cosine 'distance to hyperplane' is not a geometric distance, only its bound 0.5 <= radius 1 is used. Checked on the implementation after every operation (direct oracle)",
+        partial="proved: index_after_any_history / index_history_from — for EVERY sequence of AddDocument (new or overwrite), UpdateDocument and removal (down to empty and up again), from the empty index or from any state satisfying the invariant (the rebuilt index after reopen: rebuild), each tree lists exactly the live ids, each once, routed by the stored vectors; the call order this models is regenerated from the source (index_glue); index_after_reopen — the index rebuilt by NewCollection (any iteration order) satisfies the invariant again (rebuild loop and the single forest behind c.index / c.lshTree regenerated: index_rebuild). proved: TreeInv preserved by every operation; covering_radius_complete (every listed document within the radius and passing the filter is returned, for every forest, under the geometric hypothesis FarSound or hyperplane-within-radius); the geometric hypothesis itself for the Euclidean metric over the reals (C05.far_side_geometry, Mathlib). Gap: binary64 rounding of the geometry (the harness enlarges the covering radius by 1e-7 relative); the cosine 'distance to hyperplane' is not a geometric distance, only its bound 0.5 <= radius 1 is used. Checked on the implementation after every operation (direct oracle)",
     ),
     "C06": dict(
         modules=["Syzgy.Props.C06", "Syzgy.Props.C06Real"], ties=["Numeric"],
